@@ -72,6 +72,11 @@ Inductive action :=
    None = exhausted normally, Some e = raised e (EFuel = model ran out of fuel) *)
 Definition outcome := (list (list byte) * option err)%type.
 
+(* PEP 479: generate_bufr_message is a generator; a StopIteration that
+   propagates out of its body reaches the caller as RuntimeError (class "other") *)
+Definition gen_exc (e : err) : err :=
+  match e with EStopIter => EOther | _ => e end.
+
 Definition cons_piece (p : list byte) (r : outcome) : outcome := (p :: fst r, snd r).
 
 Section Scanner.
@@ -156,7 +161,7 @@ Section Scanner.
           match step info_only continue_on_error use_filter (skipn i s) with
           | Yield p adv => cons_piece p (scan info_only continue_on_error use_filter f s (i + adv))
           | Skip adv => scan info_only continue_on_error use_filter f s (i + adv)
-          | Raise e => ([], Some e)
+          | Raise e => ([], Some (gen_exc e))
           end
         end
       else ([], None)
